@@ -119,7 +119,13 @@ func (n *node) depth() int {
 	return d
 }
 
+// permuteCase re-spells the letter case of a key. ASCII keys: byte-wise as ever; a key with
+// non-ASCII letters: rune-wise with the unicode tables (permuteCaseU, unikeys_test.go), and only
+// if every rune of it has a one-to-one case mapping.
 func permuteCase(r *kit.Rand, s string) string {
+	if !isASCII(s) {
+		return permuteCaseU(r, s)
+	}
 	mode := r.Intn(4)
 	b := []byte(s)
 	for i, c := range b {
@@ -164,6 +170,7 @@ type structSite struct {
 
 type dgen struct {
 	r       *kit.Rand
+	uni     bool // the type has non-ASCII keys: map data keys come from mapKeyPoolU
 	sites   []site
 	structs []structSite
 }
@@ -293,7 +300,11 @@ func (g *dgen) value(t *tdesc, depth int) *node {
 		}
 		used := map[string]bool{}
 		for i := 0; i < cnt; i++ {
-			k := kit.Choose(g.r, mapKeyPool)
+			pool := mapKeyPool
+			if g.uni {
+				pool = mapKeyPoolU
+			}
+			k := kit.Choose(g.r, pool)
 			if used[k] {
 				continue
 			}
